@@ -1360,6 +1360,11 @@ std::string Annotator::AnnotatorImpl::setAutoId(const AnyCellmlElementPtr &item)
 
 std::string Annotator::assignId(const AnyCellmlElementPtr &item)
 {
+    if (item == nullptr) {
+        pFunc()->addIssueInvalidArgument(CellmlElementType::UNDEFINED);
+        return "";
+    }
+
     return pFunc()->setAutoId(item);
 }
 
